@@ -1,15 +1,38 @@
-"""SERVER — composition check (not one of the listed properties): end-to-end socket traces of the real Session::manage serving
-TLC-built / random applications with fangs are validated event by event against specs/Server.tla (Router + RouterApp + the
-session loop).  Run: bin/check SERVER [--tier thorough].  Writes no evidence file."""
+"""SERVER — the composition: end-to-end socket traces of the real Session::manage serving TLC-built / random applications with
+fangs are validated event by event against specs/Server.tla (Router + RouterApp + the session loop).
+
+`bin/check SERVER [--tier thorough]` runs it on its own (no evidence file: it is not one of the listed properties).  The checks
+of C01, C04 and C05 call `composition(ctx, classes)`: a run that Server.tla does not explain is attributed, from the STUCK /
+VERDICT record of Trace_Server, to
+   dispatch  the handler that ran is not one the routing property allows (`handler` event without explanation, DispatchInv)  -> C01
+   fangs     an enter / leave event that is not the next one of an onion trace of the request, an incomplete onion           -> C04
+   session   the loop itself: an event out of order, a response out of order, a read after `Connection: close`, the statuses
+             the client saw differ from those the machine counted; also a crash or hang of the server                        -> C05
+and only the classes asked for become violations of the calling property (the others are noted)."""
 import json, time
 from vlib import log, ToolError
 
-def run(ctx):
-    ctx.build_harness()
+TRACE = ("Trace_Server", "Trace_Server.cfg")
+
+def classify(rec):
+    """rec: STUCK or failed VERDICT record of Trace_Server -> (class, short reason)"""
+    if rec.get("t") == "STUCK":
+        why, ev = rec["why"], rec["ev"]
+        if why.startswith("invariant:"):
+            return ("dispatch" if why == "invariant:DispatchInv" else "session"), why
+        if ev in ("enter", "leave", "handled"):
+            return "fangs", "unexplained-%s-in-phase-%s" % (ev, rec["phase"])
+        if ev == "handler":
+            return "dispatch", "unexplained-handler-in-phase-%s" % rec["phase"]
+        return "session", "unexplained-%s-in-phase-%s" % (ev, rec["phase"])
+    c = rec["sig"]["class"]
+    return ("dispatch" if c == "invariant:DispatchInv" else "session"), c
+
+def scenarios(ctx):
     q = ctx.quick
     scns = []
-    g = ctx.tlc("RouterGen", "Gen_Router_c04.cfg", workers=6, timeout=1800)
-    g2 = ctx.tlc("RouterGen", "Gen_Router_c04_sim.cfg", workers=4, simulate="num=%d" % (6 if q else 80), depth=18, name="gen-sim", timeout=1200)
+    g = ctx.tlc("RouterGen", "Gen_Router_c04.cfg", workers=6, timeout=1800, name="comp-gen")
+    g2 = ctx.tlc("RouterGen", "Gen_Router_c04_sim.cfg", workers=4, simulate="num=%d" % (6 if q else 80), depth=18, name="comp-gen-sim", timeout=1200)
     seen = set()
     for d in g.lines + g2.lines:
         key = json.dumps([d["apps"], d["early"]], sort_keys=True)
@@ -23,39 +46,78 @@ def run(ctx):
         n = 1 + (len(seen) % 4)
         conn = [{"req": reqs[(len(seen) * 7 + j * 13) % len(reqs)], "close": (j == n - 1 and len(seen) % 3 == 0)} for j in range(n)]
         scns.append({"apps": d["apps"], "early": d["early"], "conn": conn, "reqs": []})
-    rp = ctx.path("random.ndjson")
+    rp = ctx.path("comp-random.ndjson")
     ctx.vh_gen("server", rp, 300 if q else 5000)
     scns += [json.loads(l) for l in open(rp)]
     for n, d in enumerate(scns):
         d["id"] = n
-    obs = ctx.vh("server", ctx.write_ndjson("scenarios.ndjson", scns), ctx.path("observations.ndjson"), jobs=12, timeout_ms=90000)
+    return scns
+
+def judge(ctx, obs, tag="comp"):
+    """-> list of (id, class, reason)"""
     bad, CH = [], 1500
     for c in range(0, len(obs), CH):
         ev = []
         for o in obs[c:c + CH]:
             if o["obs"].get("kind") != "server":
-                bad.append((o["id"], o["obs"].get("kind"))); continue
+                bad.append((o["id"], "session", "server-" + str(o["obs"].get("kind")))); continue
             ev.append({"ev": "reset", "id": o["id"], "apps": o["scn"]["apps"], "conn": o["scn"]["conn"], "early": o["scn"]["early"], "a": 0, "b": 0})
             ev += o["obs"]["events"]
             ev.append({"ev": "end", "statuses": o["obs"]["statuses"], "a": 0, "b": 0})
-        t = ctx.validate("Trace_Server", "Trace_Server.cfg", ctx.write_ndjson("trace-%d.ndjson" % (c // CH), ev), len(ev), name="trace-%d" % (c // CH))
-        ok = {r["id"] for r in t.lines if r.get("t") == "VERDICT" and r["ok"]}
+        t = ctx.validate(TRACE[0], TRACE[1], ctx.write_ndjson("%s-trace-%d.ndjson" % (tag, c // CH), ev), len(ev), name="%s-trace-%d" % (tag, c // CH))
+        done = set()
         for r in t.lines:
-            if r.get("t") == "VERDICT" and not r["ok"] and r["id"] not in ok:
-                bad.append((r["id"], r["sig"]["class"]))
+            if r.get("t") == "STUCK" or (r.get("t") == "VERDICT" and not r["ok"]):
+                cls, why = classify(r); bad.append((r["id"], cls, why)); done.add(r["id"])
+            elif r.get("t") == "VERDICT":
+                done.add(r["id"])
         for o in obs[c:c + CH]:
-            if o["obs"].get("kind") == "server" and o["id"] not in ok and not any(b[0] == o["id"] for b in bad):
-                bad.append((o["id"], "event-sequence-not-a-behaviour-of-Server"))
-    log("[server] %d connections (%d events) validated against Server.tla: %d rejected" % (len(obs), sum(len(o["obs"].get("events", [])) for o in obs), len(bad)))
-    for i, why in bad[:5]:
-        log("  rejected id=%s: %s" % (i, why))
-    if bad:
-        by = {o["id"]: o for o in obs}
+            if o["obs"].get("kind") == "server" and o["id"] not in done:
+                raise ToolError("Trace_Server produced neither a verdict nor a STUCK record for run %s" % o["id"])
+    return bad
+
+def composition(ctx, classes):
+    """Runs the composition and registers, as violations of ctx.prop, the rejected runs whose class is in `classes`."""
+    scns = scenarios(ctx)
+    obs = ctx.vh("server", ctx.write_ndjson("comp-scenarios.ndjson", scns), ctx.path("comp-observations.ndjson"), jobs=12, timeout_ms=90000)
+    bad = judge(ctx, obs)
+    nev = sum(len(o["obs"].get("events", [])) for o in obs)
+    ctx.evaluations += len(obs)
+    ctx.extra["composition"] = {"connections": len(obs), "events": nev, "rejected": len(bad), "classes_decided_here": sorted(classes)}
+    log("[composition] %d connections (%d events of the real session loop, fangs and handlers) validated against Server.tla: %d rejected" % (len(obs), nev, len(bad)))
+    by = {o["id"]: o for o in obs}
+    other = {}
+    for i, cls, why in bad:
+        if cls in classes:
+            ctx.violation({"composition": cls, "why": why}, json.dumps({"conn": by[i]["scn"]["conn"], "events": by[i]["obs"].get("events", [])[:30]})[:400],
+                          {"composition": True, "scn": by[i]["scn"], "obs": by[i]["obs"]})
+        else:
+            other[(cls, why)] = other.get((cls, why), 0) + 1
+    for (cls, why), n in sorted(other.items()):
+        ctx.note("composition: %d run(s) not explained by Server.tla for a reason that belongs to another property's check (%s: %s)" % (n, cls, why))
+    return bad
+
+def replay_composition(ctx, doc):
+    """doc: the replay document of a composition violation.  Returns 1 if the run is still rejected."""
+    ctx.build_harness()
+    scn = dict(doc["scenario"]["scn"], id=0)
+    obs = ctx.vh("server", ctx.write_ndjson("comp-scenarios.ndjson", [scn]), ctx.path("comp-observations.ndjson"), jobs=1, timeout_ms=90000)
+    print(json.dumps(obs[0])[:3000])
+    bad = judge(ctx, obs)
+    print(bad)
+    return 1 if bad else 0
+
+def run(ctx):
+    ctx.build_harness()
+    bad = composition(ctx, {"dispatch", "fangs", "session"})
+    for i, cls, why in bad[:5]:
+        log("  rejected id=%s: %s %s" % (i, cls, why))
+    if ctx.violations:
         rp = ctx.path("server-rejected.json")
-        json.dump(by[bad[0][0]], open(rp, "w"), indent=1)
+        json.dump(ctx.violations[0]["replay"], open(rp, "w"), indent=1)
         log("VIOLATION property=SERVER replay=%s" % rp)
         return 1
     return 0
 
 def replay(ctx, path):
-    raise ToolError("no replay for the composition check")
+    return replay_composition(ctx, json.load(open(path)))
